@@ -190,7 +190,9 @@ CLAIMS = {
               'applying replay_events leaves every light, zone and cell in the captured state, and only captured devices are addressed; in raw '
               'mode registers holding integers in 0..65535 are transmitted unchanged (no conversion, clamping or rounding); a name with any '
               'characters other than a double quote, written between quotes and followed by the rest of its line, is lexed as one string token '
-              'whose content is the name. Per run, on generated populations: the real generator writes snapshot_text; the real parser accepts it '
+              'whose content is the name. For populations of PLAIN lights the chain is closed inside the models: the reference semantics of the '
+              'generated tree is exactly the replay commands, and the compiled script run on the machine model against any population that still '
+              'has those lights issues exactly those commands (via the forward simulation of C01). Per run, on generated populations: the real generator writes snapshot_text; the real parser accepts it '
               'and the parser model turns it into snapshot_ast\'s instructions; the reference semantics runs snapshot_ast to exactly '
               'replay_events; the real Machine replays the script on simulated devices in another state and the state read back equals the capture.'),
         note=COMMON_NOTE + 'The three links text -> tree -> commands are established per generated population by evaluation inside Coq (and for the lexing of quoted names by a theorem), not by one theorem over all populations; the simulated multizone light has at most 16 zones; power memory is added to the simulated lights by the harness.',
